@@ -14,8 +14,9 @@ import (
 
 func init() {
 	register("C03", Entry{
-		Title: "Per-node FIFO: servers start handlers in the order the client issued the calls",
-		Run:   runC03,
+		Title:    "Per-node FIFO: servers start handlers in the order the client issued the calls",
+		Run:      runC03,
+		Examples: true,
 		Meta: core.PropertyMeta{
 			Explanation: "Decides the structural chain that makes issue order = start order on one connection. F1: every entry point hands its request to the per-node queue synchronously on the caller's goroutine, for every targeted node, before it returns or starts its call goroutine; only the six entry points call enqueue. F2: one queue per node with one producer function and one consumer goroutine started exactly once per channel, one channel per node. F3: one writer of the stream (sendMsg, called from one site in the sender loop, at most once per dequeued request, exactly one SendMsg per call). F4: on the server, every path from starting a handler to the next RecvMsg acquires the per-connection mutex (released by the handler); one RecvMsg site. F5: exactly one handler start per received message, with the message filled by this iteration's RecvMsg into a freshly allocated Message. F6: every method of every committed service has exactly one registered handler under the name its stub sends (generated-code model, C17 B1).",
 			NotDecided:  "In-order delivery inside one gRPC stream and FIFO semantics of Go channels (trusted); that stragglers are 'still queued' (run time); the liveness half ('every targeted server handles every call') beyond its structural part (F1-F3 + C07-E3).",
